@@ -43,15 +43,17 @@
  *  b64rt   {00 01 7f 80 ff 'A'}^4..10; b64tail: EVERY 3-byte string followed by
  *          a 4th byte 4k + (k mod 4), k = 0..63: complete first group x the
  *          one-byte padding case (2^30 strings).
- *  b64acc  12 symbols {A B / + = * NUL a - _ LF 9}^0..8 (URL-safe alphabet
- *          characters and line feeds must be rejected).
- *  hexacc  {0 9 a F g NUL}^0..11;  hexrt  {00 01 7f 80 ff 'A'}^2..8 and EVERY
+ *  b64acc  14 symbols {A B / + = * NUL a - _ LF 9 ff @}^0..8 (URL-safe alphabet
+ *          characters, line feeds, a byte with the high bit and the character
+ *          before 'A' must be rejected).
+ *  hexacc  {0 9 a F g NUL ff}^0..10;  hexrt  {00 01 7f 80 ff 'A'}^2..8 and EVERY
  *          byte string of length 2 and 3 (hexall).
  *  endian  32-bit: bytes in {00 01 02 7f 80 81 fe ff}^4; 64-bit: bytes in
  *          {00 01 7f 80 fe ff}^8 (1 679 616 values), offsets 0..7.
  *  addr    IPv4 octets {0 1 9 10 19 20 99 100 127 128 199 200 249 250 254 255}^4
  *          x ports {1 80 9999 65535 256 32768} x both forms; IPv6 groups
- *          {0 1 abcd ffff 10 a0b}^8 x 6 forms x 4 ports; every octet value
+ *          {0 1 abcd ffff 10 a0b}^8 x 8 forms (also: groups zero-padded to four
+ *          digits, last two groups as a dotted quad) x 4 ports; every octet value
  *          0..255 in the first and in the last position and every port 1..65535
  *          (addr4oct, addrport).
  *  (the deep sections skip the inputs the standard sections already ran.)
@@ -705,7 +707,10 @@ addr_v4(int a, int b, int c, int d, int port, int form, const char * desc)
 		hx_viol("C17:addr:resolver-reached", "bracketed literal \"%s\" was handed to getaddrinfo", text);
 }
 
-/* Render groups; form 0 full lower case, 1 full upper case, 2+k: k-th maximal zero run as "::". Returns 0 if no such form. */
+/*
+ * Render groups; form 0 full lower case, 1 full upper case, 2+k (k = 0..3): k-th maximal zero run as "::"; --deep only:
+ * 6 every group zero-padded to four digits, 7 the last two groups as a dotted quad.  Returns 0 if no such form.
+ */
 static int
 v6_text(const unsigned * g, int form, int port, char * out, size_t n)
 {
@@ -713,7 +718,7 @@ v6_text(const unsigned * g, int form, int port, char * out, size_t n)
 	size_t o = 0;
 	int i, rs = -1, re = -1;
 
-	if (form >= 2) {
+	if (form >= 2 && form < 6) {
 		int k = form - 2, j;
 
 		for (i = 0; i < 8; i = j) {
@@ -736,7 +741,11 @@ v6_text(const unsigned * g, int form, int port, char * out, size_t n)
 			i = re - 1;
 			continue;
 		}
-		o += (size_t)snprintf(ip + o, sizeof(ip) - o, (form == 1) ? "%X" : "%x", g[i]);
+		if (form == 7 && i == 6) {
+			o += (size_t)snprintf(ip + o, sizeof(ip) - o, "%u.%u.%u.%u", g[6] / 256, g[6] % 256, g[7] / 256, g[7] % 256);
+			break;
+		}
+		o += (size_t)snprintf(ip + o, sizeof(ip) - o, (form == 1) ? "%X" : (form == 6) ? "%04x" : "%x", g[i]);
 		if (i < 7)
 			o += (size_t)snprintf(ip + o, sizeof(ip) - o, ":");
 	}
@@ -882,9 +891,10 @@ case_json(const uint8_t * desc, size_t len)
 /* Enumeration units                                                   */
 /* ================================================================== */
 static const uint8_t B64BYTES[6] = { 0x00, 0x01, 0x7f, 0x80, 0xff, 'A' };
-static const uint8_t B64ACC[12] = { 'A', 'B', '/', '+', '=', '*', 0x00, 'a', /* --deep only: */ '-', '_', '\n', '9' };
+static const uint8_t B64ACC[14] = { 'A', 'B', '/', '+', '=', '*', 0x00, 'a', /* --deep only: */ '-', '_', '\n', '9', 0xff, '@' };
 static int b64acc_nsym = 8;
-static const uint8_t HEXACC[6] = { '0', '9', 'a', 'F', 'g', 0x00 };
+static const uint8_t HEXACC[7] = { '0', '9', 'a', 'F', 'g', 0x00, /* --deep only: */ 0xff };
+static int hexacc_nsym = 6;
 
 /* all byte strings of length 3 with first byte u; unit 256: lengths 0..2 */
 static void
@@ -967,7 +977,7 @@ hexacc_one(const uint8_t * s, size_t L)
 		case_hexacc(desc, L + 1);
 	}
 }
-static void unit_hexacc(uint64_t u) { enum_strings(u, HEXACC, 6, 0, hex_maxlen, hexacc_one); }
+static void unit_hexacc(uint64_t u) { enum_strings(u, HEXACC, hexacc_nsym, 0, hex_maxlen, hexacc_one); }
 
 static void
 unit_hex2(uint64_t u)
@@ -1244,9 +1254,8 @@ unit_addr6_deep(uint64_t u)
 			if (d[i] >= 4)
 				isnew = 1;
 		}
-		if (!isnew)
-			continue;	/* run by the standard section */
-		for (form = 0; form < 6; form++)
+		/* forms 0..5 of the standard group vectors are run by the standard section */
+		for (form = isnew ? 0 : 6; form < 8; form++)
 			for (pi = 0; pi < 4; pi++) {
 				snprintf(desc, sizeof(desc), "6 %x %x %x %x %x %x %x %x %d %d", g[0], g[1], g[2], g[3], g[4], g[5], g[6], g[7], PORTS[pi], form);
 				addr_v6(g, PORTS[pi], form, desc);
@@ -1408,10 +1417,11 @@ main(int argc, char ** argv)
 	}
 	if (deep) {
 		/* beyond thorough; a replay needs no flag (every case record carries its complete input) */
-		b64_maxlen = 10; hex_maxlen = 11; hexrt_maxlen = 8;
-		b64acc_nsym = 12;
+		b64_maxlen = 10; hex_maxlen = 10; hexrt_maxlen = 8;
+		b64acc_nsym = 14; hexacc_nsym = 7;
 		for (s = 0; s < NSEC; s++) {
-			if (strcmp(SEC[s].name, "b64acc") == 0) SEC[s].nunits = 12 * 12;
+			if (strcmp(SEC[s].name, "b64acc") == 0) SEC[s].nunits = 14 * 14;
+			if (strcmp(SEC[s].name, "hexacc") == 0) SEC[s].nunits = 7 * 7;
 			if (strcmp(SEC[s].name, "b64tail") == 0) SEC[s].nunits = 256;
 			if (strcmp(SEC[s].name, "addr6deep") == 0) SEC[s].nunits = NV6DEEP * NV6DEEP * NV6DEEP * NV6DEEP;
 			if (strcmp(SEC[s].name, "addr4deep") == 0) SEC[s].nunits = 256;
@@ -1430,10 +1440,10 @@ main(int argc, char ** argv)
 	    "json: objects of 0..%d members from %d names x %d values, whitespace none/all gaps, %d keys",
 	    b64_maxlen, acc_maxlen, hex_maxlen, vf_tier ? "all four for every form" : "all four for the full form, one rotating for the others", json_maxm, NJN, NJV, NJK);
 	if (deep)
-		vf_info("deep_bounds", "in addition: b64 {00,01,7f,80,ff,'A'}^4..10 and every 3-byte string x 64 fourth bytes (4k + k mod 4); acceptance over {A B / + = * NUL a - _ LF 9}^0..8; "
-		    "hex {0 9 a F g NUL}^0..11, round trips {00,01,7f,80,ff,'A'}^2..8 and every byte string of length 2 and 3; endian 32-bit bytes {00,01,02,7f,80,81,fe,ff}^4, 64-bit bytes {00,01,7f,80,fe,ff}^8, offsets 0..7; "
+		vf_info("deep_bounds", "in addition: b64 {00,01,7f,80,ff,'A'}^4..10 and every 3-byte string x 64 fourth bytes (4k + k mod 4); acceptance over {A B / + = * NUL a - _ LF 9 ff @}^0..8; "
+		    "hex {0 9 a F g NUL ff}^0..10, round trips {00,01,7f,80,ff,'A'}^2..8 and every byte string of length 2 and 3; endian 32-bit bytes {00,01,02,7f,80,81,fe,ff}^4, 64-bit bytes {00,01,7f,80,fe,ff}^8, offsets 0..7; "
 		    "addr: IPv4 octets {0,1,9,10,19,20,99,100,127,128,199,200,249,250,254,255}^4 x ports {1,80,9999,65535,256,32768} x 2 forms, "
-		    "IPv6 groups {0,1,abcd,ffff,10,a0b}^8 x 6 forms x 4 ports, every octet value 0..255 first and last x {0,1,9,10,99,100,127,255}^3 x 4 ports x 2 forms, "
+		    "IPv6 groups {0,1,abcd,ffff,10,a0b}^8 x 8 forms (full, upper case, each maximal zero run as ::, zero-padded groups, dotted-quad tail) x 4 ports, every octet value 0..255 first and last x {0,1,9,10,99,100,127,255}^3 x 4 ports x 2 forms, "
 		    "every port 1..65535 on one IPv4 address (2 forms) and two IPv6 addresses (inputs already run by the standard sections are skipped)");
 	vf_info("nontrivial_rule", "decoder/resolver/finder accepted the input and a value comparison took place (round trips, accepted candidate encodings, resolved addresses, JSON searches that found a member); one distinct-set per family, each saturating at 2^20 entries (lower bound)");
 	for (s = 0; s < NSEC; s++)
